@@ -163,6 +163,26 @@ Definition documented_default (side key : string) : option jv :=
   else if String.eqb side "right" && String.eqb key "disp" then Some JNull
   else None.
 
+(* the user's value as the completed section keeps it: the strings "NaN" / "inf" / "-inf" read
+   as numbers (input.rst), also inside a dictionary value, at any depth below dictionaries;
+   nothing else changes (keys, order, lists) *)
+Fixpoint kept (v : jv) : jv :=
+  match v with
+  | JDict d =>
+    JDict ((fix go (d : dict) : dict :=
+              match d with [] => [] | (k, x) :: r => (k, kept x) :: go r end) d)
+  | _ => conv_special v
+  end.
+
+(* a Python value: every dictionary has each key once (at any depth below dictionaries) *)
+Fixpoint py_keys (v : jv) : Prop :=
+  match v with
+  | JDict d =>
+    NoDup (keys d) /\
+    (fix all (d : dict) : Prop := match d with [] => True | (_, x) :: r => py_keys x /\ all r end) d
+  | _ => True
+  end.
+
 (* JSON booleans are outside the property's vocabulary ("integer"): the statements about the
    interval form exclude them explicitly *)
 Definition no_bool (v : jv) : bool :=
